@@ -17,15 +17,66 @@ def pipe(name, runs_q, runs_t, **cfg):
     return dict(name=name, world='worlds.pipe', cfg=cfg, runs=dict(quick=runs_q, thorough=runs_t))
 
 
+LT = 'seeded search over event/reply interleavings on the real scheduler+farm with scripted workers; oracle = ground truth of observed releases, hand-outs and replies plus the reference evaluator; sampling, not proof'
+LN = 'trusted: the simulator kernel (sim/), the reference evaluator (worlds/aegen.Ref), scripted workers as a model of real worker processes; db.post backend not exercised'
+MIX_DEFAULT = dict(run=6, rerun_executing=2, add_target=1, run_all=1, run_empty=0)
+
 PROPS = {
+    'C01': dict(
+        level='exploration', rule=PIPE_RULE, components=PIPE_COMPONENTS, level_text=LT, level_note=LN,
+        probes=['batch_nonempty', 'reply_with_new_values', 'reply_failure', 'target_added'],
+        batches=[
+            pipe('fault-free', 1600, 60000, faults=False, events=14, max_total=8, max_pkgs=4,
+                 mix=dict(run=6, rerun_executing=1, add_target=1, run_all=2, run_empty=0)),
+            pipe('faults', 900, 40000, faults=True, net=True, events=14, max_total=8, max_pkgs=4),
+        ],
+        wall=dict(quick=100, thorough=1500),
+    ),
+    'C02': dict(
+        level='exploration', rule=PIPE_RULE, components=PIPE_COMPONENTS, level_text=LT, level_note=LN,
+        probes=['reply_with_new_values', 'quiesced'],
+        batches=[
+            pipe('fault-free', 1600, 60000, faults=False, events=10, outcome=dict(success=8, failure=1, invalid=1)),
+            pipe('faults', 900, 40000, faults=True, net=True, events=10),
+        ],
+        wall=dict(quick=100, thorough=1500),
+    ),
+    'C04': dict(
+        level='exploration', rule=PIPE_RULE, components=PIPE_COMPONENTS, level_text=LT, level_note=LN,
+        probes=['quiesced', 'request_with_no_targets', 'reply_failure', 'reply_invalid', 'failure_withdrew_dependent'],
+        batches=[
+            pipe('fault-free', 1600, 60000, faults=False, events=8, outcome=dict(success=3, failure=2, invalid=2),
+                 mix=dict(run=6, rerun_executing=1, add_target=1, run_all=1, run_empty=2)),
+            pipe('faults', 900, 40000, faults=True, net=True, events=8, outcome=dict(success=3, failure=2, invalid=2),
+                 mix=dict(run=6, rerun_executing=1, add_target=1, run_all=1, run_empty=2)),
+        ],
+        wall=dict(quick=100, thorough=1500),
+    ),
+    'C05': dict(
+        level='exploration', rule=PIPE_RULE, components=PIPE_COMPONENTS, level_text=LT, level_note=LN,
+        probes=['reply_failure', 'reply_invalid', 'failure_withdrew_dependent'],
+        batches=[
+            pipe('fault-free', 1600, 60000, faults=False, events=14, outcome=dict(success=3, failure=3, invalid=3)),
+            pipe('faults', 900, 40000, faults=True, net=True, events=14, outcome=dict(success=3, failure=3, invalid=3)),
+        ],
+        wall=dict(quick=100, thorough=1500),
+    ),
+    'C11': dict(
+        level='exploration', rule=PIPE_RULE, components=PIPE_COMPONENTS, level_text=LT, level_note=LN,
+        probes=['handed'],
+        batches=[
+            pipe('fault-free', 1200, 50000, faults=False, workers=[0, 1, 2, 3, 5, 8]),
+            pipe('faults', 1300, 50000, faults=True, net=True, workers=[0, 1, 2, 3, 5, 8]),
+        ],
+        wall=dict(quick=100, thorough=1500),
+    ),
     'C03': dict(
         level='exploration', rule=PIPE_RULE, components=PIPE_COMPONENTS,
-        level_text='seeded search over event/reply interleavings on the real scheduler+farm with scripted workers; oracle = ground truth of observed releases, hand-outs and replies; sampling, not proof',
-        level_note='trusted: the simulator kernel (sim/), the reference evaluator (worlds/aegen.Ref), scripted workers as a model of real worker processes; db.post backend not exercised',
+        level_text=LT, level_note=LN,
         probes=['rerequest_while_doing', 'reply_with_new_values', 'handed'],
         batches=[
-            pipe('fault-free', 300, 40000, faults=False),
-            pipe('faults', 200, 30000, faults=True, net=True),
+            pipe('fault-free', 1500, 60000, faults=False),
+            pipe('faults', 1000, 40000, faults=True, net=True),
         ],
         wall=dict(quick=100, thorough=1200),
     ),
